@@ -254,6 +254,7 @@ func (x *Exec) execAlloc(fr *frame, t *ssa.Alloc, st *State, reach string) *Stat
 		st.set(comp, x.define(comp, x.so.comps[comp], "(store "+st.get(comp)+" "+r+" "+x.so.zeroOf(et)+")"))
 	}
 	fr.vals[t] = sval{t: r}
+	x.markNamed(r, t.Type())
 	return st
 }
 
